@@ -8,3 +8,21 @@ reg('C01', 'static analysis: constant-table comparison (LABEL/ALLOWED vs lifecyc
     'For all schedules: no transition_to site can run on a terminated process, the ALLOWED tables add no edge outside the '
     'lifecycle graph, the exit check dominates every state entry and only StateMachine writes the state. Covers code and '
     'interleavings no offline test executes.', NOTE)
+
+reg('C04', 'static analysis: must-fact dataflow on kill()\'s guard ladder; provenance of the deferred-kill wiring (action, cookie, alias, message); '
+    'CFG must-pass-through for the end-of-step dispatch; alias discipline at every site that replaces/cancels the interrupt action; '
+    'future typestate (unguarded multi-writer, external canceller)',
+    'For all schedules: which sites may cancel a pending kill, whether kill()\'s direct/deferred branches hold their guards in one '
+    'interleaving-free region, whether the kill text and KILLED label reach the state, whether the cancel hook is wired. Liveness over all '
+    'programs is not decided.', NOTE)
+reg('C06', 'static analysis: future typestate -- every writer role of the waiting future classified fresh/guarded/guarded-drop/unguarded by '
+    'must-facts; forwarding of resume values; registration of completion callbacks',
+    'For all interleavings of resume / interrupt / awaitable completion: a writer that raises or drops when it comes second exists iff a site is '
+    'unguarded or guarded-drop. Liveness beyond these conflicts is not decided.', NOTE)
+reg('C13', 'static analysis: dispatch-ladder exhaustiveness over Command subclasses, forwarding completeness (every captured constructor field '
+    'reaches the next state with the right star-kind), save/load key symmetry of the state payloads',
+    'For all argument choices: a captured field that is never forwarded, a command without a branch, a wrong constant label or a payload that is '
+    'not persisted is found from the shape of the code.', NOTE)
+reg('C20', 'static analysis: exactly-once typestate by enumeration of every acyclic CFG path of each adapter callback; run-once guard facts',
+    'For every nesting/outcome/order: each path through each adapter resolves the output future exactly once (result, captured exception, cancel '
+    'or re-registration); cancelled() is tested before result(); CancellableAction runs only while pending, inside capture_exceptions(self).', NOTE)
